@@ -169,6 +169,99 @@ theorem shared_max_not_local :
   rw [← batchedMask_eq_map, e1, e2]
   decide
 
+
+/-! ### the eigh root (`eigh=True`) -/
+
+/-- **root_padding_invariant, eigh model.**  `matrix_inverse_pth_root_eigh` with the eigen-solver an external kernel.
+Hypothesis `KernelPadOK` (the `eigh` spec with zero padding): for `blockdiag(R, 0)` the kept eigenpairs — those not
+zeroed by `e *= flip(ix)` — are the eigenpairs of `R` zero-extended (`blockdiag(R, 0)` has the decomposition
+`blockdiag(U, I)`); nothing is assumed about the dropped columns.  Then pad / root with `padding_start = s` / cut is the
+root of the unpadded statistic, for every `max_size = N ≥ s`, ridge and `e ↦ max(e, ridge)^(-1/p)`. -/
+theorem root_padding_invariant_eigh [Field α] [LinearOrder α] [IsStrictOrderedRing α]
+    (kernel : Kernel α) (hk : KernelPadOK kernel) (invE : α → α) {s N : Nat} (hs : s ≤ N) (ridge : α) (a : A2 α) :
+    paddedEighRoot kernel invE N s ridge a = eighRootA kernel invE s s ridge a := by
+  unfold paddedEighRoot
+  rw [eighRootA_padSq kernel hk invE hs]
+  unfold eighRootA
+  exact cutA_embed_tabM _ hs
+
+/-- before the cut the eigh root of the padded statistic is the zero-extension (padded rows and columns exactly 0) -/
+theorem padded_eigh_root_is_blockdiag [Field α] [LinearOrder α] [IsStrictOrderedRing α]
+    (kernel : Kernel α) (hk : KernelPadOK kernel) (invE : α → α) {s N : Nat} (hs : s ≤ N) (ridge : α) (a : A2 α) :
+    eighRootA kernel invE N s ridge (padSq s N a) = embed N (eighRootA kernel invE s s ridge a) :=
+  eighRootA_padSq kernel hk invE hs ridge a
+
+/-- **ds_param_update_local for the eigh path**: with `eigh=True` a leaf receives the same roots in any two trees; the
+only hypothesis is the kernel's block decomposition of zero-padded matrices. -/
+theorem ds_param_update_local_eigh [Field α] [LinearOrder α] [IsStrictOrderedRing α]
+    (kernel : Kernel α) (hk : KernelPadOK kernel) (invE : α → α) (ridgeOf : Nat → A2 α → α)
+    (pre post pre' post' : List (List (Stat α))) (leaf : List (Stat α)) :
+    (treeRootsG (fun N s a => paddedEighRoot kernel invE N s (ridgeOf s a) a) (pre ++ leaf :: post))[pre.length]?
+      = some (leaf.map fun st => eighRootA kernel invE st.size st.size (ridgeOf st.size st.dat) st.dat) ∧
+    (treeRootsG (fun N s a => paddedEighRoot kernel invE N s (ridgeOf s a) a) (pre ++ leaf :: post))[pre.length]?
+      = (treeRootsG (fun N s a => paddedEighRoot kernel invE N s (ridgeOf s a) a) (pre' ++ leaf :: post'))[pre'.length]? := by
+  have hinv : ∀ N s a, s ≤ N → (fun N s a => paddedEighRoot kernel invE N s (ridgeOf s a) a) N s a
+      = (fun N s a => paddedEighRoot kernel invE N s (ridgeOf s a) a) s s a := fun N s a hs => by
+    show paddedEighRoot kernel invE N s (ridgeOf s a) a = paddedEighRoot kernel invE s s (ridgeOf s a) a
+    rw [root_padding_invariant_eigh kernel hk invE hs, root_padding_invariant_eigh kernel hk invE (le_refl s)]
+  obtain ⟨h1, h2⟩ := ds_param_update_local _ hinv pre post pre' post' leaf
+  refine ⟨?_, h2⟩
+  rw [h1]
+  congr 1
+  apply List.map_congr_left
+  intro st _
+  exact root_padding_invariant_eigh kernel hk invE (le_refl _) _ _
+
+/-- the Newton analogue, stated in the same form (no hypothesis besides `p ≥ 1`) -/
+theorem ds_param_update_local_newton [Field α] [LinearOrder α] [IsStrictOrderedRing α]
+    (c : Cfg α) (hp : 0 < c.p) (ridgeOf : Nat → A2 α → α)
+    (pre post pre' post' : List (List (Stat α))) (leaf : List (Stat α)) :
+    (treeRootsG (fun N s a => paddedRoot N s c (ridgeOf s a) a) (pre ++ leaf :: post))[pre.length]?
+      = (treeRootsG (fun N s a => paddedRoot N s c (ridgeOf s a) a) (pre' ++ leaf :: post'))[pre'.length]? :=
+  (ds_param_update_local _ (fun N s a hs => by
+    show paddedRoot N s c (ridgeOf s a) a = paddedRoot s s c (ridgeOf s a) a
+    rw [paddedRoot_eq c hp hs, paddedRoot_eq c hp (le_refl s)]) pre post pre' post' leaf).2
+
+/-! ### the discrete slot plan (`ds_plan`): which statistic sits where -/
+
+/-- **slot count** = Σ over blocks of the number of preconditioned axes = #blocks × #preconditioned axes, for every shape,
+block size and `PreconditionerType`. -/
+theorem ds_slot_count (pt : PType) (shape : List Nat) (b : Nat) :
+    (dsSlotsP pt shape b).length = (dsBlocks shape b).length * (precAxes pt shape.length).length :=
+  length_slotsFrom pt shape.length 0 (dsBlocks shape b) (length_of_mem_dsBlocks shape b)
+
+/-- **slot of (block i, k-th preconditioned axis) = i · K + k**, and it carries that block's own slice and size -/
+theorem ds_slot_index (pt : PType) (shape : List Nat) (b : Nat) (i k : Nat)
+    (hi : i < (dsBlocks shape b).length) (hk : k < (precAxes pt shape.length).length) :
+    (dsSlotsP pt shape b)[i * (precAxes pt shape.length).length + k]? =
+      some ⟨i, (precAxes pt shape.length)[k], (dsBlocks shape b)[i],
+        ((dsBlocks shape b)[i].getD ((precAxes pt shape.length)[k]) (0, 0)).2⟩ := by
+  have := slotsFrom_getElem pt shape.length 0 (dsBlocks shape b) (length_of_mem_dsBlocks shape b) i k hi hk
+  simpa [dsSlotsP] using this
+
+/-- **a leaf's slots are one contiguous range of the flat statistics list**, starting at `index_start` = the number of
+slots of the leaves before it (= the corresponding entry of `indexStarts`), and holding exactly the leaf's own slots:
+adding, removing or reshaping other leaves shifts `index_start` but never the contents of the range. -/
+theorem ds_leaf_slots_contiguous (pt : PType) (b : Nat) (pre post : List (List Nat)) (sh : List Nat) :
+    ((treeSlots pt b (pre ++ sh :: post)).drop (treeSlots pt b pre).length).take (dsSlotsP pt sh b).length
+      = dsSlotsP pt sh b ∧
+    (indexStarts ((pre ++ sh :: post).map fun s => (dsSlotsP pt s b).length) 0)[pre.length]?
+      = some (treeSlots pt b pre).length := by
+  constructor
+  · rw [treeSlots_append, List.append_assoc, List.drop_left', List.take_left']
+    · rfl
+    · rfl
+  · have := indexStarts_getElem (pre.map fun s => (dsSlotsP pt s b).length) (dsSlotsP pt sh b).length
+      (post.map fun s => (dsSlotsP pt s b).length) 0
+    simp only [List.length_map, Nat.zero_add] at this
+    rw [List.map_append, List.map_cons, this, length_treeSlots]
+
+/-- the contents of a leaf's range do not depend on the other leaves at all -/
+theorem ds_leaf_slots_independent (pt : PType) (b : Nat) (pre post pre' post' : List (List Nat)) (sh : List Nat) :
+    ((treeSlots pt b (pre ++ sh :: post)).drop (treeSlots pt b pre).length).take (dsSlotsP pt sh b).length
+      = ((treeSlots pt b (pre' ++ sh :: post')).drop (treeSlots pt b pre').length).take (dsSlotsP pt sh b).length := by
+  rw [(ds_leaf_slots_contiguous pt b pre post sh).1, (ds_leaf_slots_contiguous pt b pre' post' sh).1]
+
 /-! ### the hypotheses are satisfiable (non-vacuity) -/
 
 /-- a concrete configuration of the Newton model over ℚ (`p = 2`; `sqrt`, `rootp` arbitrary) -/
@@ -187,6 +280,12 @@ example (ridgeOf : Nat → A2 ℚ → ℚ) : ∀ N s a, s ≤ N →
   fun N s a hs => by
     show paddedRoot N s exCfg (ridgeOf s a) a = paddedRoot s s exCfg (ridgeOf s a) a
     rw [paddedRoot_eq exCfg (by decide) hs, paddedRoot_eq exCfg (by decide) (le_refl s)]
+
+/-- an eigen-solver satisfying `KernelPadOK` exists (the exact solver for diagonal matrices), so the eigh theorems are not
+vacuous -/
+example (g : Nat → ℚ) : KernelPadOK (diagKernel g) := diagKernel_padOK g
+
+example : (dsSlotsP .input [7, 3] 4).length = 2 ∧ (dsSlotsP .all [7, 3] 4).length = 4 := by decide
 
 /-- a tree with two leaves of different statistic sizes: `max_size` is the larger one, so the first leaf is padded -/
 example : maxSizeOf [[(⟨2, #[]⟩ : Stat ℚ)], [⟨5, #[]⟩, ⟨3, #[]⟩]] = 5 := by decide
